@@ -91,8 +91,8 @@ CLAIMED = {
             "Decides for all 95 selectable (builder, version) pairs: key/version pairing of request and reply schema, flexible-header "
             "consistency, that prepare() only builds a struct inside the broker's range (highest first), constructor arity and field "
             "alignment per version, no silent drop of a parameter (named ones never), type stability across versions, wire signatures "
-            "against the reference table, and that each primitive writes what it reads. Value-level round-trips and varint arithmetic "
-            "are not decided."),
+            "against the reference table, that each primitive writes what it reads, and that every request the client layer itself sends is "
+            "built in the call that sends it from that call's arguments. Value-level round-trips and varint arithmetic are not decided."),
     "C19": ("must-call chains on the CFGs of stop()/close(), release table of every task/timer creation site, cancel-then-await "
             "protection analysis (which suspension points of the cancelled coroutine let CancelledError escape), closing-aware cycle "
             "analysis of every suspending while-loop in the code stop() waits for, dominance rules on the closed flags",
@@ -100,8 +100,9 @@ CLAIMED = {
             "package keeps is cancelled or awaited by a closer; no closer can end with CancelledError because of a task it cancelled itself; "
             "every retry loop that stop() waits for (not cancels) consults the closing flag or is bounded for a stated reason; waits on the "
             "coordination path include the closing future; stop is idempotent and later API calls raise the stopped/closed error; LeaveGroup "
-            "is sent exactly for dynamic members with a generation. The numeric latency bound and task leaks that depend on run-time "
-            "callbacks are not decided."),
+            "is sent exactly for dynamic members with a generation; the metadata synchronizer never returns to its timed wait owing an "
+            "update nobody can ask for again (typestate of update future and wake-up future over every path of one iteration); milliseconds "
+            "never reach a seconds sink. The numeric latency bound and task leaks that depend on run-time callbacks are not decided."),
     "C10": ("check-before-use dataflow over the Cython parse tree lowered to a CFG (coverage facts cursor+n<=len created by bounds checks and "
             "branch conditions, transferred through cursor arithmetic, killed on reassignment, intersected at joins), summary of the bounds "
             "helper from its body (sign, overflow), constructor invariants, loop-progress analysis with lower bounds, structural checksum rules, "
